@@ -47,10 +47,16 @@ def gen_spec(rnd, lib):
     version = rnd.choice(older) if r < 0.85 else (list(lib) if r < 0.93 else [lib[0], lib[1] + 1, 0])
     props = []
     for i in range(rnd.randint(0, 5)):
-        vt = rnd.choice(["int", "float", "bool", "str"])
+        # "properties of every value type": the four common ones, and the other widths with the extremes of their range
+        vt = rnd.choice(["int", "float", "bool", "str"]) if rnd.random() < 0.7 else rnd.choice(WIDTHS)
         n = rnd.randint(1, 4)
         if vt == "bool":
             vals = [rnd.randint(0, 1) for _ in range(n)]
+        elif vt in RANGES:
+            lo, hi = RANGES[vt]
+            vals = [rnd.choice([lo, hi, hi - 1, lo + 1, rnd.randint(lo, hi), rnd.randint(max(lo, -5), min(hi, 50))]) for _ in range(n)]
+        elif vt == "int" and rnd.random() < 0.3:
+            vals = [rnd.choice([-2 ** 63, 2 ** 63 - 1, rnd.randint(-2 ** 63, 2 ** 63 - 1), rnd.randint(-5, 50)]) for _ in range(n)]
         else:
             vals = [rnd.randint(-5, 50) for _ in range(n)]
         uk = rnd.random()
@@ -64,6 +70,10 @@ def gen_spec(rnd, lib):
                       "unc": unc, "ref": strs(), "file": strs(), "enc": strs(), "chk": strs()})
     dims = [rnd.choice(["alias", "alias", "ticks", "linked"]) for _ in range(rnd.randint(0, 3))]
     return {"version": version, "has_id": rnd.random() < 0.4, "props": props, "dims": dims, "linker": rnd.random() < 0.4}
+
+
+WIDTHS = ["uint64", "int32", "uint8", "int8", "uint32", "float32"]
+RANGES = {"uint64": (0, 2 ** 64 - 1), "int32": (-2 ** 31, 2 ** 31 - 1), "uint8": (0, 255), "int8": (-128, 127), "uint32": (0, 2 ** 32 - 1)}
 
 
 def n_steps(spec, lib):
@@ -120,7 +130,7 @@ def run(ctx):
                 failures.append(("the upgraded file cannot be read", inp, v))
             else:
                 for p in c["spec"]["props"]:
-                    want = [str(bool(x)) if p["vtype"] == "bool" else (str(float(x)) if p["vtype"] == "float" else str(x)) for x in p["values"]]
+                    want = [str(bool(x)) if p["vtype"] == "bool" else (str(float(x)) if p["vtype"] in ("float", "float32") else str(x)) for x in p["values"]]
                     if v["props"].get(p["name"]) != want:
                         failures.append(("a property value changed", inp, {"name": p["name"], "read": v["props"].get(p["name"]), "want": want}))
                     want_unit = p["unit"] if p["new"] else (p["unit"] or None)
